@@ -14,7 +14,7 @@
    up to and at the end of the uint32 range (before the repair they needed the extra hypothesis
    "the counter has not reached 2^32-1" and C07_wrap_refuted exhibited 4294967295, 0). *)
 From Verif Require Import Common RunCounter RunCounter_proofs.
-From Verif Require Import Gen_RunNumberSites RunNumberSites_proofs.
+From Verif Require Import Gen_RunNumberSites Gen_FileCounter RunNumberSites_proofs.
 Open Scope N_scope.
 
 (* Numbers handed out later are larger, and all are larger than the value the counter had at
@@ -124,24 +124,73 @@ Proof. exact lowering_refutes. Qed.
 Print Assumptions C07_needs_monotone_foreign_writers.
 
 (* File backend (the non-Consul branch of NewRunNumber), all goroutines of one process calling one
-   Service: Lock, Stat/create, ReadFile, WriteFile, Unlock.  [frun (finit f) sched] executes ANY
-   interleaving [sched] of the steps of any number of calls on ANY initial file content (absent,
-   junk, a number, 2^32-1).  Since the repair of C07-a (mutex) and C07-b (overflow check) the
-   full statement holds with no hypothesis at all. *)
+   Service: Lock, Stat / create (empty, then "0"), ReadFile, WriteFile = truncate THEN write,
+   Unlock.  [frun (finit f) sched] executes ANY interleaving [sched] of the steps of any number
+   of calls on ANY initial file content (absent, junk, a number, 2^32-1), with the process
+   dying at ANY points ([FCrash None]: every call in flight is gone, the file stays as it is -
+   empty if a write-back had truncated it - and a restarted process goes on with it) and with
+   the file getting ANY content from outside at a restart ([FCrash (Some b)]).  [fenv_ok] only
+   asks that such a content does not read as a valid number below what was handed out. *)
 Definition C07_file_backend_statement : Prop :=
-  forall f sched, NoDup (fhanded (frun (finit f) sched)).
+  forall f sched, fenv_ok (fcur f) (finit f) sched -> NoDup (fhanded (frun (finit f) sched)).
 
 Theorem C07_file_backend_unique : C07_file_backend_statement.
 Proof. exact file_nodup. Qed.
 Print Assumptions C07_file_backend_unique.
 
 Theorem C07_file_backend_monotone : forall f sched,
+  fenv_ok (fcur f) (finit f) sched ->
   StronglySorted N.lt (fcur f :: fhanded (frun (finit f) sched)).
 Proof. exact file_sorted. Qed.
 Print Assumptions C07_file_backend_monotone.
 
-(* no update is lost: the file stands at its first value plus the number of calls that returned *)
+(* crash points only (no content from outside): no hypothesis at all.  Whatever a dying process
+   leaves in the file, the numbers handed out before and after are strictly increasing. *)
+Theorem C07_file_backend_crash_safe : forall f sched,
+  Forall (fun e => match e with FCrash (Some _) => False | _ => True end) sched ->
+  StronglySorted N.lt (fcur f :: fhanded (frun (finit f) sched)).
+Proof. exact file_sorted_plain. Qed.
+Print Assumptions C07_file_backend_crash_safe.
+
+(* the torn write: a process that dies between the truncate and the write of a write-back leaves
+   an empty file, which does not read as a number ... *)
+Theorem C07_file_torn_write_is_empty : forall st i n,
+  fget (f_callers st) i = FHasRead n ->
+  f_file (fdo (fstep st i) (FCrash None)) = Some [] /\
+  fval (f_file (fdo (fstep st i) (FCrash None))) = None.
+Proof. exact file_torn_is_empty. Qed.
+Print Assumptions C07_file_torn_write_is_empty.
+
+(* ... and on a file that does not read as a number (empty, blanks, a trailing newline, digits
+   followed by garbage, anything) every later start FAILS, for ever, in every later life of the
+   process: nothing is handed out and the file is left alone - the sequence is never restarted *)
+Theorem C07_file_torn_fails_forever : forall st c sched,
+  fval (f_file (fdo st (FCrash c))) = None ->
+  Forall (fun e => match e with FCrash (Some _) => False | _ => True end) sched ->
+  f_rets (frun (fdo st (FCrash c)) sched) = f_rets st /\
+  f_file (frun (fdo st (FCrash c)) sched) = f_file (fdo st (FCrash c)).
+Proof. exact file_torn_fails_forever. Qed.
+Print Assumptions C07_file_torn_fails_forever.
+
+(* failing there is what makes it true: a reader that forgives blanks and takes an empty file
+   for "0" hands 1 out again after 1, 2 and a torn write; this is what monitor code 11 looks for *)
+Theorem C07_file_strict_parse_needed :
+  ~ (forall f sched, NoDup (fhanded (frun_lenient (finit f) sched))).
+Proof. exact file_lenient_refutes. Qed.
+Print Assumptions C07_file_strict_parse_needed.
+
+(* the file model is written from these operations: the file branch of NewRunNumber makes, in this
+   order, os.Stat, WriteFile (create), ReadFile, one ParseUint(_, 10, 32) of the bytes read as
+   they are, WriteFile (write-back: truncate then write) - table regenerated from the source *)
+Theorem C07_file_counter_as_modelled :
+  gen_fc_ops = expected_fc_ops /\ gen_fc_parse = expected_fc_parse.
+Proof. exact file_counter_as_modelled. Qed.
+Print Assumptions C07_file_counter_as_modelled.
+
+(* while the process lives no update is lost: whenever the mutex is free the file stands at its
+   first value plus the number of calls that returned *)
 Theorem C07_file_backend_dense : forall f sched,
+  no_crash sched -> f_lock (frun (finit f) sched) = None ->
   fcur (f_file (frun (finit f) sched)) =
   fcur f + N.of_nat (length (fhanded (frun (finit f) sched))).
 Proof. exact file_dense. Qed.
@@ -149,6 +198,7 @@ Print Assumptions C07_file_backend_dense.
 
 (* at most one call is between Lock and Unlock *)
 Theorem C07_file_backend_mutex : forall f sched i j,
+  fenv_ok (fcur f) (finit f) sched ->
   fcritical (frun (finit f) sched) i -> fcritical (frun (finit f) sched) j -> i = j.
 Proof. exact file_mutex. Qed.
 Print Assumptions C07_file_backend_mutex.
@@ -291,7 +341,14 @@ Example C07_nonvacuous_boundary :
   cur (s_store (run (init s0) sched)) = 4294967295.
 Proof. exact boundary_example. Qed.
 
-(* file backend: two overlapping calls on "5" — the second one waits for the mutex *)
+(* file backend: two overlapping calls on "5" (the second one waits for the mutex), then a third
+   call dies between truncate and write, the process restarts: the next call fails, the file
+   stays empty, 6 and 7 are never handed out again *)
 Example C07_nonvacuous_file :
-  fhanded (frun (finit (Some [53])) [0; 1; 0; 1; 0; 1; 1; 1]) = [6; 7].
-Proof. reflexivity. Qed.
+  let sched := [FS 0; FS 1; FS 0; FS 1; FS 0; FS 0; FS 1; FS 1; FS 1; FS 1;
+                FS 2; FS 2; FS 2; FCrash None; FS 3; FS 3; FS 3] in
+  fenv_ok 5 (finit (Some [53])) sched /\
+  fhanded (frun (finit (Some [53])) sched) = [6; 7] /\
+  f_file (frun (finit (Some [53])) sched) = Some [] /\
+  fres (frun (finit (Some [53])) sched) 3 = None.
+Proof. vm_compute. repeat split; exact I. Qed.
